@@ -3,6 +3,10 @@
 //! Read-only views of internal state (raw Montgomery limbs) and re-exports of the
 //! internal tower / group / pairing engine so that an external monitor can drive
 //! them on arbitrary elements. Nothing here is reachable in a normal build.
+//!
+//! Each wrapper that names a private item can be left out on its own with
+//! `--cfg john_yu_sm9_core_verif_skip_<group>` (raw, sop, pow, fexp, prep, consts), so that
+//! the remaining hooks keep building when that item is renamed or removed.
 
 pub use crate::fields::{FieldElement, Fq as RawFq, Fq12, Fq2 as RawFq2, Fq4, Fr as RawFr};
 pub use crate::groups::{GroupElement, G1 as RawG1, G2 as RawG2};
@@ -11,11 +15,13 @@ pub use crate::pairings::verif::*;
 pub use crate::pairings::verif_lines;
 pub use crate::pairings::G2Prepared;
 
+#[cfg(not(john_yu_sm9_core_verif_skip_raw))]
 /// Raw (Montgomery form) limbs of a public `Fr`, least significant first.
 pub fn fr_limbs(x: &crate::Fr) -> [u64; 4] {
     let r = x.0.raw();
     [r[0], r[1], r[2], r[3]]
 }
+#[cfg(not(john_yu_sm9_core_verif_skip_raw))]
 /// Raw (Montgomery form) limbs of a public `Fq`, least significant first.
 pub fn fq_limbs(x: &crate::Fq) -> [u64; 4] {
     let r = x.0.raw();
@@ -54,13 +60,16 @@ pub fn gt_inner(g: &crate::Gt) -> Fq12 {
 pub fn gt_from(f: Fq12) -> crate::Gt {
     crate::Gt(f)
 }
+#[cfg(not(john_yu_sm9_core_verif_skip_sop))]
 /// The interleaved sum-of-products multiplier on arbitrary operand vectors.
 pub fn sum_of_products_2(a: &[RawFq; 2], b: &[RawFq; 2]) -> RawFq {
     RawFq::sum_of_products(a, b)
 }
+#[cfg(not(john_yu_sm9_core_verif_skip_sop))]
 pub fn sum_of_products_4(a: &[RawFq; 4], b: &[RawFq; 4]) -> RawFq {
     RawFq::sum_of_products(a, b)
 }
+#[cfg(not(john_yu_sm9_core_verif_skip_prep))]
 /// Number of precomputed line coefficients held by a prepared G2 value.
 pub fn prepared_len(p: &G2Prepared) -> usize {
     prepared_coeffs_len(p)
